@@ -99,6 +99,16 @@ def run_suite(ctx, cases, backends=spine.ALL_BACKENDS, preconds=("ruiz",), name=
                 for k, v in lines:
                     opno, key = k.split(".", 1)
                     per_op.setdefault(int(opno), {})[key] = v
+                last_data = None
+                for opno in sorted(per_op):
+                    o = per_op[opno]
+                    if "dims" in o: last_data = o
+                    if "kkt.K" in o and last_data is not None and getattr(c, "kkt_oracle", True):
+                        for code, msg in oracles.check_kkt_state(last_data, o, b):
+                            if codes is not None and not any(code.startswith(p_) for p_ in codes): continue
+                            nviol += 1
+                            ctx.violation("%s backend=%s precond=%s %s" % (code, b, pcd, " ".join(c.tags)), "%s (case %s op %d): %s" % (code, cname, opno, msg),
+                                          {"case": c.text(), "backend": b, "precond": pcd, "op": opno, "oracle": code, "message": msg})
                 for opno, o in per_op.items():
                     if opno not in c.pbs: continue
                     if o.get("op") != "solve":
